@@ -64,15 +64,15 @@ def main():
             res = run_checks(p, checks, tier)
             urows.append((os.path.basename(p), ', '.join(c for c, r in res.items() if r['caught']) or 'MISSED', ', '.join(c for c, r in res.items() if not r['caught'])))
             print(urows[-1][0], urows[-1][1], flush=True)
-    with open(os.path.join(VERIF, 'seeded', 'RESULTS.md'), 'a' if args else 'w') as f:
-        if not args:
-            f.write('# Seeded changes vs. checks (%s tier, written by tools/reseed.py)\n\n| change | property | what was changed | caught by | not caught by |\n|---|---|---|---|---|\n' % tier)
-        for r in rows:
-            f.write('| %s | %s | %s | %s | %s |\n' % r)
-        if urows:
-            f.write('\n## Reverse patches of the fix: commits\n\n| patch | caught by | not caught by |\n|---|---|---|\n')
+    # the per-change table is rebuilt from the (now updated) meta.json files; the reverse patches of the fixes get their own file
+    if urows:
+        with open(os.path.join(VERIF, 'seeded', 'RESULTS_unfix.md'), 'w') as f:
+            f.write('# Reverse patches of the fix: commits vs. checks (%s tier, written by tools/reseed.py)\n\n| patch | caught by | not caught by |\n|---|---|---|\n' % tier)
             for r in urows:
                 f.write('| %s | %s | %s |\n' % r)
+    sys.path.insert(0, os.path.join(VERIF, 'tools'))
+    import results_from_meta
+    results_from_meta.main()
     return 0
 
 
